@@ -729,6 +729,8 @@ class Interp:
         ref = Ref(frame[p.local])
         for pr in p.proj:
             k = pr[0]
+            if isinstance(ref, tuple) and k not in ('index', 'cindex'):
+                raise Unsupported('projection %s on a slice place (%s in %s)' % (k, p, f.name))
             if k == 'field':
                 ref = Ref(ref.cell, ref.path + (pr[1],))
             elif k == 'deref':
@@ -738,7 +740,8 @@ class Interp:
                 elif isinstance(inner, Agg) and inner.ty == 'Box':
                     ref = inner.f[0].f[0].f[0]
                 elif isinstance(inner, (SliceRef, StrRef)):
-                    return ('fat', inner)
+                    ref = ('fat', inner)          # later projections (`(*slice)[0 of 2]` of a slice pattern) index into it
+                    continue
                 else:
                     raise Unsupported('deref of %r (%s in %s)' % (inner, p, f.name))
             elif k == 'downcast':
@@ -1147,7 +1150,17 @@ class Interp:
 
     def call_value(s, fn, args):
         if isinstance(fn, Agg) and fn.ty == 'fnitem':
-            return s.do_call(fn.f[0], args, None)
+            name = fn.f[0]
+            if s.prog.resolve_cache.get(name) is None and re.fullmatch(r'[\w:]+', name) and s.resolve(name)[0] == 'none':
+                # a function item named by its full module path (`vm::builtin::procedure::apply`): the MIR names functions by a
+                # shorter path; take the longest suffix that resolves
+                parts = name.split('::')
+                for i in range(1, len(parts)):
+                    ent = s.resolve('::'.join(parts[i:]))
+                    if ent[0] != 'none':
+                        s.prog.resolve_cache[name] = ent
+                        break
+            return s.do_call(name, args, None)
         if isinstance(fn, Agg) and fn.ty.startswith('{closure@'):
             return s.call_closure(fn, args)
         raise Unsupported('call through %r' % (fn,))
